@@ -37,15 +37,16 @@ func (t *stTrigger) Description() string { return "st" }
 
 type stJob struct {
 	mu    sync.Mutex
-	execs []int64
-	r     *rand.Rand
+	execs     []int64
+	r         *rand.Rand
+	maxMicros int
 }
 
 func (j *stJob) Execute(ctx context.Context) error {
 	now := quartz.NowNano()
 	j.mu.Lock()
 	j.execs = append(j.execs, now)
-	d := time.Duration(j.r.Intn(1500)) * time.Microsecond
+	d := time.Duration(j.r.Intn(j.maxMicros)) * time.Microsecond
 	j.mu.Unlock()
 	select {
 	case <-time.After(d):
@@ -108,7 +109,10 @@ func stressRun(args []string) int {
 		events := make([][]apiEvent, J)
 		for j := 0; j < J; j++ {
 			trigs[j] = &stTrigger{interval: int64(time.Duration(3+r.Intn(15)) * time.Millisecond)}
-			jobs[j] = &stJob{r: rand.New(rand.NewSource(*seed*1000 + int64(run*10+j)))}
+			jobs[j] = &stJob{r: rand.New(rand.NewSource(*seed*1000 + int64(run*10+j))), maxMicros: 1500}
+			if mode == 1 && run%2 == 1 { // long executions saturate the pool of two workers
+				jobs[j].maxMicros = 9000
+			}
 			o := quartz.NewDefaultJobDetailOptions()
 			o.Replace = true
 			dets[j] = quartz.NewJobDetailWithOptions(jobs[j], quartz.NewJobKeyWithGroup(fmt.Sprintf("j%d", j), "stress"), o)
@@ -171,6 +175,11 @@ func stressRun(args []string) int {
 					consumed = append(consumed, c.prev)
 				}
 				results[c.res] = true
+			}
+			if len(consumed)-len(execs) > k+2 {
+				// an on-time dispatch hands the fire time back to the trigger first and then executes; at shutdown at most one
+				// dispatch per scheduler (plus the pool hand-off in progress) may be abandoned
+				flagV(fmt.Sprintf("C04 %d fire times of job j%d were consumed as on time but only %d executions started: fire times were silently dropped (mode %d, %d schedulers)", len(consumed), j, len(execs), mode, k))
 			}
 			if len(execs) > len(consumed) {
 				flagV(fmt.Sprintf("C03 job j%d executed %d times but only %d of its trigger's fire times were consumed (mode %d, %d schedulers)", j, len(execs), len(consumed), mode, k))
